@@ -499,7 +499,18 @@ def u_proceed_enter_exit(c):
     c.prove("enter/installs-new-and-yields-interactor", var.value is new and got is itor)
     exc = c.choose(2)
     args = [None, None, None] if not exc else [ValueError, ValueError("boom"), None]
-    scen = c.choose(2)
+    scen = c.choose(3)
+    if scen == 2:
+        # a SECOND activation (another generator) was entered after this one and is still suspended when this one ends:
+        # the surrounding code never changed its handlers, so it must get back the collection it had at entry
+        p2 = it.call(it.get_global(O, "proceed"), [fn], {})
+        st2, _ = run(it, it.getattr(p2, "__enter__"), [])
+        c.prove("second/enter-no-raise", st2 == "ok" and var.value is c.__dict__["made"][1] and var.value is not new)
+        st, r = run(it, it.getattr(p, "__exit__"), args)
+        c.prove("exit/no-raise", st == "ok")
+        c.prove("exit/earlier-activation-ending-first-restores-the-surrounding-context", var.value is prev)
+        c.prove("exit/interactor.exit-once", len(itor.attrs["_exits"]) == 1)
+        return
     if scen == 0:
         st, r = run(it, it.getattr(p, "__exit__"), args)
         c.prove("exit/no-raise", st == "ok")
